@@ -388,6 +388,7 @@ static void fx_teardown(struct fx *f)
 	int i;
 	/* let deferred reply callbacks run first: evdns_base_free() does not cancel
 	 * reply callbacks that are already scheduled (lifetime question of C34/C38, not a lock statement) */
+	if (f->gai) { evdns_getaddrinfo_cancel(f->gai); f->gai = NULL; }   /* its cancellation callbacks are deferred too */
 	if (f->base && (f->dns || f->dport)) for (i = 0; i < 3; i++) { f->iters = 0; event_base_loop(f->base, EVLOOP_ONCE | EVLOOP_NONBLOCK); }
 	if (f->srv_req) { evhttp_send_reply(f->srv_req, 200, "OK", NULL); f->srv_req = NULL; }
 	if (f->req) { evhttp_request_free(f->req); f->req = NULL; }
@@ -763,7 +764,7 @@ X(dns_gai_cached, "evdns_getaddrinfo.cached", N_DNS, struct evutil_addrinfo h, *
 	fill_hints(&h, r); res = evutil_new_addrinfo_((struct sockaddr *)&sin, sizeof(sin), &h); if (res && vh_chance(r,1,2)) res = evutil_addrinfo_append_(res, evutil_new_addrinfo_((struct sockaddr *)&s6, sizeof(s6), &h)); \
 	if (res) { C(evdns_cache_write(f->dns, "cached.test", res, 60)); evutil_freeaddrinfo(res); } C(evdns_cache_lookup(f->dns, "cached.test", &h, 80, &res2)); if (res2) evutil_freeaddrinfo(res2); res2 = NULL; \
 	C(evdns_cache_lookup(f->dns, "absent.test", &h, 80, &res2)); C(f->gai = evdns_getaddrinfo(f->dns, "cached.test", "80", &h, gai_cb, f)); f->gai = NULL) \
-X(dns_gai_net, "evdns_getaddrinfo.network", N_DNS, struct evutil_addrinfo h; static const char *const names[] = { "net.test", "127.0.0.1", "::1", "localhost", "" }; int mode = (int)vh_below(r, 4); fill_hints(&h, r); \
+X(dns_gai_net, "evdns_getaddrinfo.network", N_DNS, struct evutil_addrinfo h; static const char *const names[] = { "net.test", "127.0.0.1", "::1", "other.test", "" }; int mode = (int)vh_below(r, 4); fill_hints(&h, r); \
 	C(f->gai = evdns_getaddrinfo(f->dns, VH_PICK(r, names), vh_chance(r,1,3) ? "http" : "8080", vh_chance(r,1,5) ? NULL : &h, gai_cb, f)); \
 	if (f->gai && vh_chance(r, 1, 4)) { C(evdns_getaddrinfo_cancel(f->gai)); step(f, 1); f->gai = NULL; } else { step(f, 1); ns_answer(f, mode); step(f, 2); ns_answer(f, mode); step(f, 2); } ) \
 X(dns_srv_port, "evdns_add_server_port_with_base/close", N_EV, int port; int fd = udp_bound(&port); struct evdns_server_port *p; C(p = evdns_add_server_port_with_base(f->base, fd, 0, dsrv_cb, f)); \
